@@ -348,3 +348,49 @@ Lemma parent_path_owner p f pq ch : parent_path p f = Some pq -> get_ch pq f = S
 Proof.
   intros H G. destruct (parent_path_spec p f pq ch 0 H G) as [(-> & -> & _)|(_ & s & _ & _ & _ & E)]; [reflexivity|exact E].
 Qed.
+
+(* ------------------------------------------------------------------ *)
+(* which node a row belongs to *)
+Lemma rows_member :
+  (forall t o p c inf, In (p, c, inf) (rows_t o t) ->
+     (p = o /\ rid t = c /\ rinfo t = inf) \/
+     (exists s, In s (pre t) /\ rid s = p /\ exists x, In x (rch s) /\ rid x = c /\ rinfo x = inf)) /\
+  (forall f o p c inf, In (p, c, inf) (rows o f) ->
+     (p = o /\ exists x, In x f /\ rid x = c /\ rinfo x = inf) \/
+     (exists s, In s (pre_f f) /\ rid s = p /\ exists x, In x (rch s) /\ rid x = c /\ rinfo x = inf)).
+Proof.
+  apply rt_forest_ind.
+  - intros id i ch IH o p c inf H. cbn [rows_t] in H. destruct H as [H|H].
+    + injection H as <- <- <-. left. now repeat split.
+    + right. destruct (IH id p c inf H) as [(-> & x & Hx)|(s & Hs & Hr)].
+      * exists (T id i ch). split; [now left|]. split; [reflexivity|]. now exists x.
+      * exists s. split; [now right|assumption].
+  - intros o p c inf [].
+  - intros t f IHt IHf o p c inf H. cbn [flat_map] in H. apply in_app_or in H. destruct H as [H|H].
+    + destruct (IHt o p c inf H) as [(-> & E1 & E2)|(s & Hs & Hr)].
+      * left. split; [reflexivity|]. exists t. split; [now left|now split].
+      * right. exists s. split; [|assumption]. cbn [flat_map]. apply in_or_app. now left.
+    + destruct (IHf o p c inf H) as [(-> & x & Hx & Hr)|(s & Hs & Hr)].
+      * left. split; [reflexivity|]. exists x. split; [now right|assumption].
+      * right. exists s. split; [|assumption]. cbn [flat_map]. apply in_or_app. now right.
+Qed.
+
+(* a row whose parent column is the owner of a child list describes a member of that list *)
+Lemma rows_owner_member q f l c inf : NoDup (ids f) -> ~ In 0 (ids f) -> get_ch q f = Some l ->
+  In (owner q f 0, c, inf) (rows 0 f) -> exists x, In x l /\ rid x = c /\ rinfo x = inf.
+Proof.
+  intros ND Z G H. destruct (proj2 rows_member f 0 _ c inf H) as [(E & x & Hx)|(s' & Hs' & E' & x & Hx)].
+  - destruct (get_ch_owner q f 0 l G) as [(_ & -> & _)|(s & Hs & E1 & E2)]; [now exists x|].
+    exfalso. apply Z. rewrite <- E, <- E1. unfold ids. now apply in_map.
+  - destruct (get_ch_owner q f 0 l G) as [(_ & _ & E1)|(s & Hs & E1 & E2)].
+    + exfalso. apply Z. rewrite <- E1, <- E'. unfold ids. now apply in_map.
+    + assert (s' = s) by (apply (node_unique f); auto; congruence). subst s'. rewrite <- E2. now exists x.
+Qed.
+
+Lemma parent_path_get p f pq : parent_path p f = Some pq -> exists ch, get_ch pq f = Some ch.
+Proof.
+  unfold parent_path. destruct (Nat.eqb p 0).
+  - intros H. injection H as <-. now exists f.
+  - intros H. destruct (node_path_sound p f pq H) as (s & H1 & _).
+    destruct (node_at_loc pq f s 0 H1) as (G & _). now exists (rch s).
+Qed.
